@@ -27,4 +27,39 @@ def A.get (a : A) (k : Bytes) : A × Option Bytes :=
 def A.has (a : A) (k : Bytes) : Bool := a.mem.has k || (alookup k a.db).isSome
 def A.peek (a : A) (k : Bytes) : Option Bytes := a.mem.peek k
 
+/-- `HasOrAdd` = `Has`, then `Put` when absent → (adapter, has, spilled) -/
+def A.hasOrAdd (vr : Variant) (a : A) (k v : Bytes) (size : Int) : A × Bool × Bool :=
+  if a.has k then (a, true, false)
+  else let r := a.put vr k v size; (r.1, false, r.2)
+
+/-- `Remove`: from the memory tier; from the persister ONLY when the key was not in memory (a spilled copy of a key that
+    is also resident stays in the persister — as coded) -/
+def A.remove (a : A) (k : Bytes) : A :=
+  match a.mem.remove k with
+  | (m, true) => { a with mem := m }
+  | (m, false) => { a with mem := m, db := aerase k a.db }
+
+/-- `Clear` purges the memory tier only -/
+def A.clear (a : A) : A := { a with mem := a.mem.purge }
+
+/-- `Keys`: memory tier (LRU → MRU) followed by the persister's keys (a key may appear twice) -/
+def A.keys (a : A) : List Bytes := a.mem.keys ++ a.db.map (·.1)
+
+/-- the adapter with its `numValuesInStorage` counter (behind `Len`): incremented per victim written — also when the
+    victim overwrites an older spilled copy — and decremented by every `Remove` that misses the memory tier -/
+structure AL where
+  a : A
+  stored : Int
+  deriving Repr
+
+def AL.put (vr : Variant) (x : AL) (k v : Bytes) (size : Int) : AL × Bool :=
+  let victims := (x.a.mem.addSizedAndReturnEvicted vr k v size).2
+  let r := x.a.put vr k v size
+  (⟨r.1, x.stored + ((victims.filter (fun e => !e.val.isEmpty)).length : Int)⟩, r.2)
+def AL.hasOrAdd (vr : Variant) (x : AL) (k v : Bytes) (size : Int) : AL × Bool × Bool :=
+  if x.a.has k then (x, true, false) else let r := x.put vr k v size; (r.1, false, r.2)
+def AL.remove (x : AL) (k : Bytes) : AL :=
+  ⟨x.a.remove k, if x.a.mem.has k then x.stored else x.stored - 1⟩
+def AL.len (x : AL) : Int := (x.a.mem.entries.length : Int) + x.stored
+
 end SV.Adapter
